@@ -34,9 +34,9 @@ func (c01) Assumptions() []string {
 }
 func (c01) NumCases(tier string, _ int64) int {
 	if tier == "thorough" {
-		return 40000
+		return 120000
 	}
-	return 1500
+	return 5000
 }
 func (c01) Exhaustive(string) bool { return false }
 func (c01) Floors(tier string) []runner.Floor {
